@@ -422,7 +422,30 @@ class PoolRunner:
                 self.add(scen, ("script", n), run, extra=[list(s) for s in script])
                 n += 1
         n = self.stale_run_scripts(quick, n)
+        n = self.h2_idle_frame_scripts(quick, n)
         self.overlap_scripts(quick, n)
+
+    def h2_idle_frame_scripts(self, quick, n):
+        """Sequential requests on a pooled HTTP/2 connection with the server SPEAKING in the idle gaps (a PING, a
+        SETTINGS update): a healthy idle connection stays in the pool and is reused."""
+        from .pool_scenarios import A, B, H2, Scenario, c, world_h2
+
+        for mc, mk, ex in ((1, None, None), (2, 1, 5)):
+            for kind in ("ping", "settings"):
+                for with_b in (False, True):
+                    calls = [c("r1", A + "/1", gates=("start",)), c("r2", A + "/2", gates=("start",)), c("r3", A + "/3", gates=("start",))]
+                    script = [("go", "r1"), ("srvframe", A + "/", kind), ("go", "r2"), ("advance", 1), ("srvframe", A + "/", kind), ("go", "r3")]
+                    if with_b:
+                        if mc < 2:
+                            continue
+                        calls.append(c("r4", B + "/4", gates=("start",)))
+                        script = script[:3] + [("go", "r4")] + script[3:]
+                    scen = Scenario(f"h2-idle-{kind}-mc{mc}-mk{mk}-ex{ex}", dict(max_connections=mc, max_keepalive_connections=mk, keepalive_expiry=ex, **H2), calls, world=world_h2, enc={"h2_origins": [0, 1]})
+                    run = scen.make()
+                    run_script(run, script)
+                    self.add(scen, ("h2-idle-frame", n), run, extra=[list(s) for s in script])
+                    n += 1
+        return n
 
     def stale_run_scripts(self, quick, n):
         """SEVERAL idle connections (one per origin, 2-4 origins) that go stale TOGETHER - all past their
